@@ -130,6 +130,9 @@ fn map_edits(m: &MapSpec) -> Vec<(&'static str, MapSpec)> {
   push("map: add a name", &|n| {
     n.names.push("extra".into());
   });
+  push("map: add an empty name", &|n| {
+    n.names.push(String::new());
+  });
   push("map: file", &|n| {
     n.file = match &n.file {
       None => Some("out.js".into()),
@@ -303,6 +306,17 @@ fn node_edits(s: &Spec, include_sms_name: bool) -> Vec<(&'static str, Spec)> {
             Repl { name: if r.name.is_some() { None } else { Some("nx".into()) }, ..r.clone() },
           ),
           ("replacement enforce", Repl { enforce: (r.enforce + 1) % 3, ..r.clone() }),
+          (
+            "replacement name absent <-> empty / other name",
+            Repl {
+              name: match r.name.as_deref() {
+                None => Some(String::new()),
+                Some("") => None,
+                Some(n) => Some(format!("{n}x")),
+              },
+              ..r.clone()
+            },
+          ),
         ];
         if r.start > 0 && r.start - 1 <= r.end {
           // keep start <= end
